@@ -14,6 +14,7 @@ CONSTANTS
   MaxDeliver = 100
   FailPoints = {0, 1, 2, 3, 4, 5, 6, 7, 8, 9, 10}
   AllowEarly = TRUE
+  AllowPkUpd = TRUE
 CONSTRAINT HighWater
 POSTCONDITION Post
 CHECK_DEADLOCK FALSE
